@@ -4,6 +4,7 @@ import (
 	"encoding/hex"
 	"errors"
 	"fmt"
+	"sort"
 	"strconv"
 	"strings"
 	"time"
@@ -292,6 +293,11 @@ func (gn *GlobalNode) setCost(key string, change int) error {
 	if gn.Cost == nil {
 		gn.Cost = make(map[string]int)
 	}
+	if _, known := Settings[key]; !known {
+		if _, exists := gn.Cost[strings.TrimPrefix(key, costPrefix)]; !exists {
+			return fmt.Errorf("unknown cost %v", key)
+		}
+	}
 	gn.Cost[strings.TrimPrefix(key, costPrefix)] = change
 	return nil
 }
@@ -393,8 +399,14 @@ func (gn *GlobalNode) set(key string, change string) error {
 }
 
 func (gn *GlobalNode) update(changes config.StringMap) error {
-	for key, value := range changes.Fields {
-		if err := gn.set(key, value); err != nil {
+	// apply in a fixed order: the first error (and with it the transaction output) must not depend on map iteration
+	keys := make([]string, 0, len(changes.Fields))
+	for key := range changes.Fields {
+		keys = append(keys, key)
+	}
+	sort.Strings(keys)
+	for _, key := range keys {
+		if err := gn.set(key, changes.Fields[key]); err != nil {
 			return err
 		}
 	}
